@@ -71,7 +71,6 @@ func vpSymBytes(name string, minLen, maxLen int) []byte {
 	return vpBytes(name, n)
 }
 
-func vpDigit(i int) string { return string(rune('0' + i)) }
 
 // VP_C15_History: after any history of Add/Delete the trie is observationally
 // the set of maximal sequences. Case parameters: depth, maxlen, order (map
